@@ -383,15 +383,15 @@ def r5(ctx):
 
 
 ANGLE_PROBES = [
-    ('5', "astropy.units.Quantity(float('5'), ['unit', pi*ANG/180])", 'bare number: degrees'),
-    ('5.', "astropy.units.Quantity(float('5.'), ['unit', pi*ANG/180])", 'a trailing decimal point is still a bare number'),
-    ('.5', "astropy.units.Quantity(float('.5'), ['unit', pi*ANG/180])", 'bare number'),
-    ('1e-5', "astropy.units.Quantity(float('1e-5'), ['unit', pi*ANG/180])", 'exponent notation (what the writer emits below 1e-4)'),
-    ('+5.25', "astropy.units.Quantity(float('+5.25'), ['unit', pi*ANG/180])", 'signed'),
-    ('5"', "astropy.units.Quantity(float('5'), ['unit', pi*ANG/648000])", '" is arcsec'),
-    ("5.5'", "astropy.units.Quantity(float('5.5'), ['unit', pi*ANG/10800])", "' is arcmin"),
-    ('5d', "astropy.units.Quantity(float('5'), ['unit', pi*ANG/180])", 'd is degrees'),
-    ('1.5r', "astropy.units.Quantity(float('1.5'), ['unit', ANG])", 'r is radians'),
+    ('5', (5.0, 'deg'), 'bare number: degrees'),
+    ('5.', (5.0, 'deg'), 'a trailing decimal point is still a bare number'),
+    ('.5', (0.5, 'deg'), 'bare number'),
+    ('1e-5', (1e-5, 'deg'), 'exponent notation (what the writer emits below 1e-4)'),
+    ('+5.25', (5.25, 'deg'), 'signed'),
+    ('5"', (5.0, 'arcsec'), '" is arcsec'),
+    ("5.5'", (5.5, 'arcmin'), "' is arcmin"),
+    ('5d', (5.0, 'deg'), 'd is degrees'),
+    ('1.5r', (1.5, 'rad'), 'r is radians'),
     ('5p', 'raises DS9ParserError', 'physical units are not angular'),
     ('5i', 'raises DS9ParserError', 'image units are not angular'),
 ]
@@ -409,11 +409,17 @@ def r3b(ctx):
         if out.raises and not out.returns:
             got = 'raises ' + str(out.raises[0][1])
         elif len(out.returns) == 1 and not out.raises:
-            got = show(out.returns[0][1], 200)
+            got = out.returns[0][1]
         else:
             got = f'{len(out.returns)} outcomes, {len(out.raises)} raises: ' + '; '.join(show(v, 60) for _, v in out.returns[:3])
-        if got != want:
-            bad.append((tok, got, want, why))
+        if isinstance(want, tuple):
+            # the value in radians (angles are carried as multiples of ANG)
+            unit = {'deg': sp.pi / 180, 'arcmin': sp.pi / 10800, 'arcsec': sp.pi / 648000, 'rad': sp.Integer(1)}[want[1]]
+            ok = is_num(got) and abs(float((got / ANG - want[0] * unit).evalf())) < 1e-12 * max(1.0, abs(want[0]))
+            if not ok:
+                bad.append((tok, got if isinstance(got, str) else show(got, 160), f'{want[0]} {want[1]}', why))
+        elif (got if isinstance(got, str) else show(got, 160)) != want:
+            bad.append((tok, got if isinstance(got, str) else show(got, 160), want, why))
     name = f.qualname.split(':')[1]
     if bad:
         tok, got, want, why = bad[0]
